@@ -509,6 +509,41 @@ def run(ctx):
     else:
         rep.violation("TLV-6", "<anchor>", "port tasks", "port_task / ethernet_port_task not found: %s" % list(tasks))
 
+    # ---------------- TLV-13: a lagging receiver retries
+    rep.rule("TLV-13", "the forwarder's receive step distinguishes a LAGGED queue (older TLVs were overwritten, newer ones ARE "
+                       "available) from an empty one and retries: after an overflow the next Announce still carries the TLVs "
+                       "that are queued", floor=1)
+    try:
+        nis = [b for b in prog.find(name="next_if_smaller", self_name="TlvForwarder")]
+        if not nis:
+            raise AnchorMissing("TlvForwarder::next_if_smaller")
+        b = nis[0]
+        c = cnd.conds(prog, b)
+        g = mir.cfg(b)
+        recv = [bi for bi, t, cal in mir.iter_calls(b, name="try_recv")]
+        retried = False
+        groups = {}
+        for bi in range(len(b.blocks)):
+            for l in c.must_literals(bi):
+                # the error value of try_recv is told apart (by variant name when the enum is known, by discriminant when
+                # it is an external type): one group of kinds leads back to try_recv, the other gives up
+                if l[0] in ("variant", "int") and "try_recv(" in df.tree_str(l[1]) and "Err" in df.tree_str(l[1]) and \
+                        df.strip(l[1])[0] != "call":
+                    back = any(r in g.reachable_from(bi) for r in recv)
+                    groups.setdefault(repr(l[2]), set()).add(back)
+        retried = len(groups) >= 2 and any(True in v for v in groups.values()) and any(v == {False} for v in groups.values())
+        if recv and retried:
+            rep.ok("TLV-13", b.key, "Lagged is retried", where=b.loc())
+        elif not recv:
+            rep.anchor_missing("TLV-13", "no try_recv in TlvForwarder::next_if_smaller")
+        else:
+            rep.violation("TLV-13", b.key, "Lagged is retried",
+                          "after try_recv() reports Lagged the forwarder does not receive again (the error kinds are not told "
+                          "apart / no path leads back to try_recv): a port that fell behind sends its next Announce without the "
+                          "TLVs that are waiting in the queue", where=b.loc())
+    except AnchorMissing as e:
+        rep.anchor_missing("TLV-13", str(e))
+
     # ---------------- TLV-7
     try:
         nis = [b for b in prog.find(name="next_if_smaller", self_name="TlvForwarder")]
